@@ -424,14 +424,17 @@ class CaseTimeout(Exception):
 
 @contextlib.contextmanager
 def time_limit(seconds: int):
+    # the timer re-fires every second after the deadline: an exception raised inside a
+    # weakref callback / __del__ is swallowed by the interpreter, and a non-terminating
+    # call would otherwise run forever after the single alarm
     def handler(signum, frame):
         raise CaseTimeout(f"timed out after {seconds}s")
     old = signal.signal(signal.SIGALRM, handler)
-    signal.alarm(seconds)
+    signal.setitimer(signal.ITIMER_REAL, seconds, 1.0)
     try:
         yield
     finally:
-        signal.alarm(0)
+        signal.setitimer(signal.ITIMER_REAL, 0)
         signal.signal(signal.SIGALRM, old)
 
 
